@@ -13,10 +13,11 @@ fi
 ( cd $WT && /venv/bin/python -m pytest -q -p no:cacheprovider -x 2>&1 | tail -1 )
 git -C $WT diff HEAD -- musicxml > /var/tmp/vf-seed-$$.diff
 git -C /repo worktree remove --force $WT
+rm -rf /var/tmp/vf-seed-ev-$$; cp -r /verif/evidence /var/tmp/vf-seed-ev-$$   # the seeded runs must not replace the evidence of the unchanged tree
 git -C /repo apply /var/tmp/vf-seed-$$.diff || { echo "cannot apply to /repo"; exit 2; }
 for c in "$@"; do
 
   ( cd /verif && ./check $c --tier ${TIER:-quick} > /var/tmp/vf-seed-$$.out 2>&1; echo "$c exit=$?"; grep "^VIOLATION" -A1 /var/tmp/vf-seed-$$.out | head -6 | cut -c1-260 )
 done
-git -C /repo checkout -- . ; rm -f /var/tmp/vf-seed-$$.diff /var/tmp/vf-seed-$$.out
+git -C /repo checkout -- . ; cp /var/tmp/vf-seed-ev-$$/*.json /verif/evidence/; rm -rf /var/tmp/vf-seed-ev-$$; rm -f /var/tmp/vf-seed-$$.diff /var/tmp/vf-seed-$$.out
 git -C /repo status --short | head -3
